@@ -55,6 +55,9 @@ def configs(ss):
     import networkx as nx
     cf['single-dense-net-one-direction'] = lambda seed, bscale=1.0: ss.Sim(n_agents=30, diseases=ss.SIR(beta=dict(static=[0.9 * bscale, 0]), init_prev=0.4),
                                                  networks=ss.StaticNet(graph=nx.complete_graph(30)), dur=3, rand_seed=seed, verbose=0)
+    # tiny graphs at high transmissibility: one susceptible agent is reached over several edges in the same step, in every order of the target list
+    cf['tiny-complete-graph'] = lambda seed, bscale=1.0: ss.Sim(n_agents=5, diseases=ss.SIS(beta=dict(static=[0.95 * bscale, 0.95 * bscale]), init_prev=0.5),
+                                                 networks=ss.StaticNet(graph=nx.complete_graph(5)), dur=3, rand_seed=seed, verbose=0)
     from harness.probes import ZeroTransOfInfected
     cf['mixingpool-zero-rel-trans'] = lambda seed, bscale=1.0: ss.Sim(n_agents=80, diseases=ss.SIS(init_prev=0.3), networks=ss.MixingPool(beta=ss.beta(0.9 * bscale), contacts=ss.poisson(3)),
                                           connectors=ZeroTransOfInfected(name='zerotrans'), dur=4, rand_seed=seed, verbose=0)
@@ -99,7 +102,7 @@ def run_level(ctx, ss):
     cases, metas = [], []
     pool_terms, pool_meta = [], []
     for name, mk in configs(ss).items():
-        for rep in range(ctx.n(1, 6)):
+        for rep in range(ctx.n(1, 6) * (30 if name == 'tiny-complete-graph' else 1)):
             seed = rng.randrange(1, 10**4)
             try:
                 sim = mk(seed); sim.init()
